@@ -16,7 +16,7 @@ func init() {
 		ID:       "C01",
 		Category: "model_checking",
 		Rule: "for every writer setting: (a) every string over {a,b} up to length 10 and {a,b,c} up to 6, and every content kind at every size of a dense ladder 0..300 plus windows around each internal threshold, as one Write + Close; " +
-			"(a') for the accelerated settings every ramp(k), k=1..300 (k consecutive byte values: every non-zero run length of the header's run-length coder), gap(k), k=1..255 (every zero run length) and Fibonacci-distributed alphabets of 2..40 symbols (Huffman depth beyond 15: length limiting); " +
+			"(a') for the accelerated settings every ramp(k), k=1..300 (k consecutive byte values: every non-zero run length of the header's run-length coder), gap(k), k=1..255 (every zero run length) and Fibonacci-distributed alphabets of 2..40 symbols (Huffman depth beyond 15: length limiting), every period 1..64 at three sizes (long matches at every small distance), 48 variants of back-to-back far copies (tokens with the maximal number of extra bits); " +
 			"(a'') token-cap straddle: incompressible / text prefixes of every length in [32690,32810) and [65400,65600) followed by a long run, a period-7 run or text, so that the last tokens of a full block are of every kind; " +
 			"(b) every sequence over {Write(piece), Flush}^<=d followed by Close with pieces chosen to hit the buffer-fill, slide, block-cap and wrap situations; " +
 			"non-trivial = the execution produced at least one compressed block from more than 8 bytes of data or contains a Flush",
@@ -178,10 +178,19 @@ func c01Harness(cfg *Cfg) func(x *mc.Exec) {
 			if !k.Accelerated() {
 				return
 			}
-			fam := x.Choose(3, "shape")
+			fam := x.Choose(5, "shape")
 			var d []byte
 			var nm string
 			switch fam {
+			case 3: // every period 1..64 (matches longer than 258 at every small distance, the re-seeding of the hash after capped matches)
+				pp := 1 + x.Choose(64, "period")
+				n := []int{600, 9000, 70000}[x.Choose(3, "size")]
+				d = pieces.Per(n, pp, cfg.Seed)
+				nm = fmt.Sprintf("per(%d,%d)", pp, n)
+			case 4: // tokens with the maximal number of bits, back to back
+				v := x.Choose(48, "variant")
+				d = pieces.FarCopies(v, cfg.Seed)
+				nm = fmt.Sprintf("farcopies(%d)", v)
 			case 0:
 				kk := 1 + x.Choose(300, "ramp")
 				d = pieces.Ramp(3000, kk)
